@@ -404,6 +404,9 @@ def ev(e, env, funcs=None):
             seq = ev(e.args[0], env, funcs)
             if isinstance(seq, tuple):
                 return seq[0] if seq else ev(e.args[1], env, funcs)
+            if type(seq).__name__ == 'IterState':
+                # (the advance of the iterator is not recorded: sound where the value is returned at once)
+                return seq.items[seq.pos] if seq.pos < len(seq.items) else ev(e.args[1], env, funcs)
             raise NotClosed('next')
         if isinstance(e.func, ast.Attribute) and e.func.attr in ('sub', 'subn', 'split', 'findall') and not e.keywords and 1 <= len(e.args) <= 2:
             try:
@@ -481,7 +484,8 @@ def ev(e, env, funcs=None):
             except NotClosed:
                 recv = None
             if isinstance(recv, str):
-                return getattr(recv, e.func.attr)(*[ev(a, env, funcs) for a in e.args])
+                r_m = getattr(recv, e.func.attr)(*[ev(a, env, funcs) for a in e.args])
+                return tuple(r_m) if isinstance(r_m, list) else r_m
         if funcs:
             r, m = call_target(e)
             key = (r + '.' + m) if r else m
